@@ -161,6 +161,7 @@ type Result struct {
 	Tape     map[string][]uint32
 	Trace    []string
 	Sample   []string
+	SchedSig uint64 // schedule signature (0 when the run had no scheduler)
 	ctx      *Ctx
 }
 
@@ -238,6 +239,9 @@ func RunOne(p *Prop, seed int64, idx int, tier string, rec map[string][]uint32, 
 		c.NonTriv = true
 	}
 	res.Hash = c.hash
+	if c.Sched != nil {
+		res.SchedSig = c.Sched.Sig() | 1
+	}
 	res.AbsSig = c.absSignature()
 	res.NonTriv = c.NonTriv
 	res.Events = c.Events
